@@ -42,7 +42,8 @@ def design_level(out, tier):
         try:
             results = []
             for mod, init, inv, length, want in (('ThrottleInd.tla', 'Init', 'IndInv', 0, True), ('ThrottleInd.tla', 'IndInit', 'IndInv', 1, True),
-                                                 ('ThrottleInd.tla', 'IndInit', 'RateFromZero', 0, True), ('ThrottleIndNoCap.tla', 'IndInit', 'IndInv', 1, False)):
+                                                 ('ThrottleInd.tla', 'IndInit', 'RateFromZero', 0, True), ('ThrottleIndNoCap.tla', 'IndInit', 'IndInv', 1, False),
+                                                 ('AveragerInd.tla', 'Init', 'IndInv', 0, True), ('AveragerInd.tla', 'IndInit', 'IndInv', 1, True)):
                 p = subprocess.run([apa, 'check', '--init=' + init, '--inv=' + inv, '--length=%d' % length, '--out-dir=' + d, mod],
                                    cwd=os.path.join(SPEC, 'apalache'), stdout=subprocess.PIPE, stderr=subprocess.STDOUT, text=True, timeout=900)
                 ok = 'EXITCODE: OK' in p.stdout
